@@ -48,7 +48,7 @@ def is_ascii(vc, s):
 def as_bytes(vc, s):
     """the ASCII text s as bytes (same characters)"""
     if vc.mode == "native" or isinstance(s, str):
-        return s.encode("ascii")
+        return s.encode("ascii") if s.isascii() else s.encode("utf-8", "surrogateescape")   # (only used under an is-ASCII guard)
     return SBytes(s.t)
 
 
